@@ -141,12 +141,9 @@ inline Number parseNumber(const char* s) {
 
   while (isdigit(*s)) {
     uint8_t digit = uint8_t(*s - '0');
-    if (mantissa > maxUint / 10)
+    if (mantissa > maxUint / 10 || mantissa * 10 > maxUint - digit)
       break;
-    mantissa *= 10;
-    if (mantissa > maxUint - digit)
-      break;
-    mantissa += digit;
+    mantissa = mantissa * 10 + digit;
     s++;
   }
 
